@@ -18,13 +18,47 @@ use tarpc::{ClientMessage, Response};
 pub struct Flag {
     pub woken: AtomicBool,
     pub wakes: AtomicUsize,
+    /// generation of the waker handed to the task's most recent poll
+    pub gen: AtomicUsize,
+    /// wake-ups delivered to a waker of an earlier poll (not a wake-up of the task: `Future::poll`
+    /// obliges a future to wake the waker of its MOST RECENT poll; an executor that moves a
+    /// task - `select!` then `spawn`, `FuturesUnordered`, a hand-written join - gives it a new one)
+    pub stale_wakes: AtomicUsize,
+}
+/// The waker of one poll of one task.
+struct GenWaker {
+    flag: Arc<Flag>,
+    gen: usize,
+}
+impl Wake for GenWaker {
+    fn wake(self: Arc<Self>) {
+        self.wake_by_ref()
+    }
+    fn wake_by_ref(self: &Arc<Self>) {
+        if self.flag.gen.load(Ordering::SeqCst) == self.gen {
+            self.flag.woken.store(true, Ordering::SeqCst);
+            self.flag.wakes.fetch_add(1, Ordering::SeqCst);
+        } else {
+            self.flag.stale_wakes.fetch_add(1, Ordering::SeqCst);
+        }
+    }
 }
 impl Flag {
     pub fn new(woken: bool) -> Arc<Flag> {
         Arc::new(Flag {
             woken: AtomicBool::new(woken),
             wakes: AtomicUsize::new(0),
+            gen: AtomicUsize::new(0),
+            stale_wakes: AtomicUsize::new(0),
         })
+    }
+    /// A new waker for the poll that is about to start; the wakers of earlier polls stop counting.
+    pub fn fresh_waker(self: &Arc<Self>) -> Waker {
+        if std::env::var_os("MC_SAME_WAKER").is_some() {
+            return Waker::from(self.clone());
+        }
+        let gen = self.gen.fetch_add(1, Ordering::SeqCst) + 1;
+        Waker::from(Arc::new(GenWaker { flag: self.clone(), gen }))
     }
     pub fn is_set(&self) -> bool {
         self.woken.load(Ordering::SeqCst)
